@@ -1,17 +1,53 @@
 package main
 
 import (
+	"crypto/sha256"
+	"strings"
+
 	"github.com/islishude/bip39"
 )
 
+// Sentences are built here from the golden lists and Go's sha256 - only to
+// construct *inputs* of interesting classes.  Whether an input is valid,
+// canonical, or what defects it has is decided by TLC from the input alone.
+
+func indicesOf(ent []byte) []int {
+	n := len(ent)
+	cs := n / 4
+	h := sha256.Sum256(ent)
+	bits := make([]byte, 0, 8*n+8)
+	for _, b := range append(append([]byte(nil), ent...), h[0]) {
+		for k := 7; k >= 0; k-- {
+			bits = append(bits, b>>uint(k)&1)
+		}
+	}
+	w := 3 * cs
+	idx := make([]int, w)
+	for i := 0; i < w; i++ {
+		v := 0
+		for k := 0; k < 11; k++ {
+			v = v<<1 | int(bits[i*11+k])
+		}
+		idx[i] = v
+	}
+	return idx
+}
+
+func sentence(idx []int, lang int, sep string) string {
+	ws := make([]string, len(idx))
+	for i, x := range idx {
+		ws[i] = goldenWords[lang][x]
+	}
+	return strings.Join(ws, sep)
+}
+
 // recSweep runs the real validator on all 2048 candidate last words for a prefix of list indices.
 func recSweep(prefix []int, lang int) {
-	sep := " "
-	words := goldenWords[lang]
 	base := ""
-	for _, ix := range prefix {
-		base += words[ix] + sep
+	if len(prefix) > 0 {
+		base = sentence(prefix, lang, " ") + " "
 	}
+	words := goldenWords[lang]
 	acc := []int{}
 	o := guarded(func() {
 		for t := 0; t < 2048; t++ {
@@ -21,6 +57,210 @@ func recSweep(prefix []int, lang int) {
 		}
 	})
 	emit(o.into(Event{"op": "Sweep", "prefix": prefix, "lang": lang, "accepted": acc, "accepted_n": len(acc)}))
+}
+
+// sweepPrefixes: prefixes of valid sentences, with 0..3 leading zero bytes and random ones
+func runSweeps(tier string, seed int64, langs []int, perPair int) {
+	for _, size := range sizes {
+		for _, lang := range langs {
+			r := newRng(seed, "sweep/"+string(rune('a'+size))+string(rune('a'+lang)))
+			for k := 0; k < perPair; k++ {
+				maybeCut()
+				ent := r.bytes(size)
+				switch k % 4 {
+				case 0: // first byte zero
+					ent[0] = 0
+				case 1: // several leading zero bytes
+					for i := 0; i <= r.intn(4); i++ {
+						ent[i] = 0
+					}
+				case 2: // all ones prefix
+					for i := 0; i < size/2; i++ {
+						ent[i] = 0xFF
+					}
+				}
+				idx := indicesOf(ent)
+				recSweep(idx[:len(idx)-1], lang)
+			}
+		}
+	}
+}
+
+var otherSeps = []string{"\t", "\n", "  ", " ", "　", " ", ",", "-", ""}
+
+// runMutations: classes of damaged sentences derived from valid ones (C03, C15)
+func runMutations(tier string, seed int64, langs []int, fullSubst bool) {
+	for _, size := range sizes {
+		for _, lang := range langs {
+			r := newRng(seed, "mut/"+string(rune('a'+size))+string(rune('a'+lang)))
+			ent := r.bytes(size)
+			if r.intn(3) == 0 {
+				ent[0] = 0
+			}
+			idx := indicesOf(ent)
+			w := len(idx)
+			L := int64(lang)
+			chk := func(s string, cls string) {
+				maybeCut()
+				recCheck(s, L, Event{"cls": cls})
+			}
+			chk(sentence(idx, lang, " "), "valid")
+			// substitutions at one position (all 2047) or a sample
+			pos := r.intn(w)
+			nsub := 2048
+			if !fullSubst {
+				nsub = 64
+			}
+			for t := 0; t < nsub; t++ {
+				x := t
+				if !fullSubst {
+					x = r.intn(2048)
+				}
+				if x == idx[pos] {
+					continue
+				}
+				m := append([]int(nil), idx...)
+				m[pos] = x
+				chk(sentence(m, lang, " "), "subst")
+			}
+			// adjacent transpositions at every position, some random ones
+			for p := 0; p+1 < w; p++ {
+				m := append([]int(nil), idx...)
+				m[p], m[p+1] = m[p+1], m[p]
+				chk(sentence(m, lang, " "), "transpose")
+			}
+			for t := 0; t < 8; t++ {
+				m := append([]int(nil), idx...)
+				a, b := r.intn(w), r.intn(w)
+				m[a], m[b] = m[b], m[a]
+				chk(sentence(m, lang, " "), "transpose")
+			}
+			// word-count changes: drop / add / duplicate (some land on another accepted count)
+			for d := 1; d <= 3; d++ {
+				chk(sentence(idx[:w-d], lang, " "), "drop")
+				chk(sentence(idx[d:], lang, " "), "drop")
+				m := append(append([]int(nil), idx...), idx[:d]...)
+				chk(sentence(m, lang, " "), "add")
+			}
+			m := append([]int{idx[0]}, idx...)
+			chk(sentence(m, lang, " "), "dup")
+			// words of other lists
+			for ol := 0; ol < 10; ol++ {
+				if ol == lang {
+					continue
+				}
+				ws := strings.Split(sentence(idx, lang, " "), " ")
+				ws[r.intn(w)] = goldenWords[ol][r.intn(2048)]
+				chk(strings.Join(ws, " "), "otherlist")
+				chk(sentence(idx, ol, " "), "wholeother") // a sentence of language ol checked under lang
+			}
+			// case / affix / punctuation damage
+			ws := strings.Split(sentence(idx, lang, " "), " ")
+			for t := 0; t < 6; t++ {
+				c := append([]string(nil), ws...)
+				p := r.intn(w)
+				switch t {
+				case 0:
+					c[p] = strings.ToUpper(c[p])
+				case 1:
+					c[p] = strings.Title(c[p])
+				case 2:
+					c[p] = c[p] + "s"
+				case 3:
+					c[p] = "x" + c[p]
+				case 4:
+					c[p] = c[p] + "."
+				case 5:
+					rs := []rune(c[p])
+					c[p] = string(rs[:len(rs)-1])
+				}
+				chk(strings.Join(c, " "), "damage")
+			}
+			// other separators, leading/trailing separators
+			for _, sp := range otherSeps {
+				chk(sentence(idx, lang, sp), "sep")
+			}
+			chk(" "+sentence(idx, lang, " "), "sep")
+			chk(sentence(idx, lang, " ")+" ", "sep")
+			chk(sentence(idx, lang, " ")+"\n", "sep")
+			// byte fuzz, including invalid UTF-8
+			bs := []byte(sentence(idx, lang, " "))
+			for t := 0; t < 12; t++ {
+				c := append([]byte(nil), bs...)
+				switch t % 4 {
+				case 0:
+					c[r.intn(len(c))] ^= byte(1 << uint(r.intn(8)))
+				case 1:
+					c[r.intn(len(c))] = byte(0x80 + r.intn(0x80))
+				case 2:
+					p := r.intn(len(c))
+					c = append(c[:p], c[p+1:]...)
+				case 3:
+					p := r.intn(len(c))
+					c = append(c[:p], append([]byte{0xC3}, c[p:]...)...)
+				}
+				chk(string(c), "fuzz")
+			}
+			chk("", "empty")
+			chk(string(r.bytes(40)), "fuzz")
+		}
+	}
+}
+
+// runDefects: sentences with exactly one class of defect (C15)
+func runDefects(tier string, seed int64, langs []int) {
+	for _, lang := range langs {
+		r := newRng(seed, "defect/"+string(rune('a'+lang)))
+		L := int64(lang)
+		// wrong counts 0..30, made of list words (count is the only possible defect when not in {12..24 step 3};
+		// for accepted counts the words are taken from a valid sentence, so there is no defect at all)
+		for n := 0; n <= 30; n++ {
+			maybeCut()
+			var s string
+			if n%3 == 0 && n >= 12 && n <= 24 {
+				s = sentence(indicesOf(r.bytes(n/3*4)), lang, " ")
+			} else {
+				idx := make([]int, n)
+				for i := range idx {
+					idx[i] = r.intn(2048)
+				}
+				s = sentence(idx, lang, " ")
+			}
+			recCheck(s, L, Event{"cls": "count"})
+		}
+		for _, size := range sizes {
+			idx := indicesOf(r.bytes(size))
+			w := len(idx)
+			ws := strings.Split(sentence(idx, lang, " "), " ")
+			// one unknown token at every position
+			for p := 0; p < w; p++ {
+				maybeCut()
+				c := append([]string(nil), ws...)
+				c[p] = []string{"zzzzzz", "notaword", c[p] + "q", "0", "éé"}[r.intn(5)]
+				recCheck(strings.Join(c, " "), L, Event{"cls": "unknown1"})
+			}
+			// several unknown tokens
+			for t := 0; t < 4; t++ {
+				c := append([]string(nil), ws...)
+				for j := 0; j < 2+t; j++ {
+					c[r.intn(w)] = "qq" + string(rune('a'+j))
+				}
+				recCheck(strings.Join(c, " "), L, Event{"cls": "unknownN"})
+			}
+			// wrong last word (checksum is the only possible defect)
+			for t := 0; t < 24; t++ {
+				m := append([]int(nil), idx...)
+				m[w-1] = r.intn(2048)
+				recCheck(sentence(m, lang, " "), L, Event{"cls": "lastword"})
+			}
+			// wrong word somewhere else
+			for t := 0; t < 12; t++ {
+				m := append([]int(nil), idx...)
+				m[r.intn(w)] = r.intn(2048)
+				recCheck(sentence(m, lang, " "), L, Event{"cls": "anyword"})
+			}
+		}
+	}
 }
 
 func replayExtra(op string, e Event) { fatal("replay: cannot re-execute", op) }
